@@ -12,7 +12,12 @@ let () = iter_lines (fun line ->
   match split_ws line with
   | "K" :: ns :: rest when (try int_of_string ns >= 0 with _ -> false) && List.length rest = int_of_string ns + 2 ->
       let nsrc = int_of_string ns in
-      let srcs = Array.init nsrc (fun k -> bytes_of_hex (List.nth rest k)) in
+      (* a source field W<hex> is a write-mode context that has just written that file's chunks: its lookup tables do
+         not exist until zck_generate_hashdb (op H) is called; a read-mode source has them from the start *)
+      let wmode = Array.init nsrc (fun k -> let f = List.nth rest k in String.length f > 0 && f.[0] = 'W') in
+      let hashdb = Array.init nsrc (fun k -> not wmode.(k)) in
+      let srcs = Array.init nsrc (fun k -> let f = List.nth rest k in
+                                    bytes_of_hex (if wmode.(k) then String.sub f 1 (String.length f - 1) else f)) in
       let shs = Array.map (fun f -> match parse_impl h_stub no_pins f with POk h -> Some h | _ -> None) srcs in
       let tf = ref (bytes_of_hex (List.nth rest nsrc)) and ops = List.nth rest (nsrc + 1) in
       let b = Buffer.create 1024 in
@@ -40,6 +45,12 @@ let () = iter_lines (fun line ->
                               fl := fl'; tf := tf'; srcs.(k) <- sf'; Buffer.add_string b (Printf.sprintf " c%d=1" k)
                           | None -> Buffer.add_string b (Printf.sprintf " c%d=FUEL" k))
                      | None -> Buffer.add_string b (Printf.sprintf " c%d=nosrc" k))
+                | 'H' ->
+                    (* zck_generate_hashdb on a source: the lookup tables are a function of the index, no visible effect *)
+                    if k < nsrc && shs.(k) <> None then begin
+                      Buffer.add_string b (Printf.sprintf " H%d=%d" k (if hashdb.(k) then 0 else 1));   (* refused when the tables exist *)
+                      hashdb.(k) <- true end
+                    else Buffer.add_string b (Printf.sprintf " H%d=nosrc" k)
                 | 'M' ->
                     (* pairing two sources: the model of the copy does not look at a source's flags, nothing changes *)
                     let j = Char.code o.[1] - 48 and k2 = Char.code o.[2] - 48 in
@@ -49,6 +60,7 @@ let () = iter_lines (fun line ->
                 | 'm' ->
                     (match (if k < nsrc then shs.(k) else None) with
                      | Some sh ->
+                         let sh = if hashdb.(k) then sh else { sh with h_chunks = [] } in
                          let (fl', pr') = find_matching (n_of_int k) sh th !fl !pr in
                          fl := fl'; pr := pr'; Buffer.add_string b (Printf.sprintf " m%d=1" k)
                      | None -> Buffer.add_string b (Printf.sprintf " m%d=nosrc" k))
